@@ -219,7 +219,7 @@ class NoteContainer(object):
         """
         return not self.is_consonant(not include_fourths)
 
-    def remove_note(self, note, octave=-1):
+    def remove_note(self, note, octave=None):
         """Remove note from container.
 
         The note can either be a Note object or a string representing the
@@ -236,7 +236,8 @@ class NoteContainer(object):
                 if x.name != note:
                     res.append(x)
                 else:
-                    if x.octave != octave and octave != -1:
+                    # (None: no octave given; -1 is an octave like any other)
+                    if octave is not None and x.octave != octave:
                         res.append(x)
             else:
                 if x != note:
